@@ -509,11 +509,30 @@ def apply_op(obj, toks, shadow):
         return obj, "Other", shadow
 
 
-def _dims_ok(x):
-    """Consistency of one grid object, read off the real attributes (independent of the model)."""
+def _stand_is_normalisation(x):
+    """Are the standardised points numerically the normalisation of the sampling points?"""
+    A, V, FD = cu._fd()
+    want, st = x.argvals.normalization(), x.argvals_stand
+    if type(want) is not type(st) or list(want.keys()) != list(st.keys()):
+        return False
+    for k in want:
+        if isinstance(want, A.IrregularArgvals):
+            if list(want[k].keys()) != list(st[k].keys()) or not all(np.array_equal(want[k][d], st[k][d], equal_nan=True) for d in want[k]):
+                return False
+        elif not np.array_equal(want[k], st[k], equal_nan=True):
+            return False
+    return True
+
+
+def _dims_ok(x, fresh=False):
+    """Consistency of one grid object, read off the real attributes (independent of the model).
+    `fresh`: the object was just constructed / its sampling points were just assigned, so the
+    standardised points must be exactly the normalisation of the sampling points."""
     A, V, FD = cu._fd()
     bad = []
     a, v, st = x.argvals, x.values, x.argvals_stand
+    if fresh and not _stand_is_normalisation(x):
+        bad.append("stand_recomputed")
     if isinstance(x, FD.DenseFunctionalData):
         pts = tuple(len(t) for t in a.values())
         if tuple(v.shape[1:]) != pts:
@@ -540,7 +559,10 @@ def _dims_ok(x):
     return bad
 
 
-def check_obj(x, shadow):
+_FRESH_OPS = {"mkD", "mkI", "setA", "gi", "gs", "ga", "cat"}
+
+
+def check_obj(x, shadow, fresh=False):
     A, V, FD = cu._fd()
     if x is None:
         return []
@@ -558,7 +580,7 @@ def check_obj(x, shadow):
         if shadow is not None and [id(c) for c in x.data] != list(shadow):
             bad.append("plain_list")
         return sorted(set(bad))
-    return _dims_ok(x)
+    return _dims_ok(x, fresh)
 
 
 def run_history(ops, light=0):
@@ -578,10 +600,11 @@ def run_history(ops, light=0):
             steps.append(dict(out=out, state="", obs="", bad=[], unchanged=True))
             continue
         after = cu.show_state(obj)
+        fresh = out == "ok" and toks[0] in _FRESH_OPS
         if k + 1 == light:
-            steps.append(dict(out=out, state=after, obs="", bad=check_obj(obj, shadow), unchanged=True))
+            steps.append(dict(out=out, state=after, obs="", bad=check_obj(obj, shadow, fresh), unchanged=True))
             continue
-        steps.append(dict(out=out, state=after, obs=cu.show_observers(obj), bad=check_obj(obj, shadow),
+        steps.append(dict(out=out, state=after, obs=cu.show_observers(obj), bad=check_obj(obj, shadow, fresh),
                           unchanged=(before == after)))
     return obj, steps
 
@@ -749,14 +772,15 @@ def random_history(rng: Rng, length):
 
 def gen_cases(rng: Rng, tier):
     common.use_repo()
-    n = dict(quick=260, thorough=4000)[tier]
-    for k in range(n):
-        yield random_history(rng, rng.choice([5, 8, 12, 20, 40]))
+    n = dict(quick=260, thorough=2500)[tier]
+    cases = [random_history(rng, rng.choice([5, 8, 12, 20, 40])) for _ in range(n)]
     if tier == "quick":
-        yield from _exhaustive(2)
+        cases += list(_exhaustive(2))
     else:
-        yield from _exhaustive(3)
-        yield from _tree_cases()
+        cases += list(_exhaustive(3))
+        cases += list(_tree_cases())
+    rng.shuffle(cases)      # spreads the expensive cases over the worker chunks
+    return cases
 
 
 def search_cases(rng, tier):
